@@ -49,8 +49,26 @@ def gen_wsd(rng, tier):
         for _ in range(nthieves):
             ns = rng.randrange(2, 7 if quick else 10)
             threads.append(",".join(["s"] * ns))
-        cases.append({"args": [k, "|".join(threads)], "env": sched_env(rng)})
+        args = [k, "|".join(threads)]
+        if rng.random() < 0.2:
+            # a long-lived run queue: indices start at 2^31 or 2^32
+            args.append(rng.choice([1 << 31, 1 << 32]))
+        cases.append({"args": args, "env": sched_env(rng)})
     return cases
+
+
+def post_wsd(log, case):
+    """oracles on the log that need no model: a retired array generation must not be released
+    while the deque is in use; no operation may return the poison"""
+    try:
+        for line in open(log):
+            if " ORACLE " in line:
+                return "oracle " + line.split(" ORACLE ", 1)[1].strip()[:120]
+            if "note ret" in line and "1515870810" in line:
+                return "oracle poisoned value returned: " + line.strip()[:120]
+    except OSError:
+        pass
+    return None
 
 
 def _rt_part():
@@ -62,7 +80,7 @@ SPEC = {
     "C02": {
         # second part: the whole runtime (model Rt, shared with C01): every schedule of a fiber
         # is consumed by exactly one switch to it; nothing is queued when all threads are idle
-        "parts": [{"name": "wsd", "harness": "wsd", "model": "Wsd", "gen": gen_wsd}, _rt_part()],
+        "parts": [{"name": "wsd", "harness": "wsd", "model": "Wsd", "gen": gen_wsd, "post": post_wsd}, _rt_part()],
         "trusted_base": [
             "runtime half: run queues as bags at the deque API (rqpush/rqpop/rqsteal call-site events) in model Rt; "
             "idle = the runtime's tick note (every kernel thread polled and found nothing for several rounds)",
